@@ -426,6 +426,12 @@ func ruleR10_5(w *World, r *Report) {
 			return "bad", "the literals of the list bound at level 1 at " + w.InstrPos(at) + " are not recorded in Solver.facts: the next Assume unbinds them for good and later answers can contradict these unit clauses"
 		}
 		if p, ok := lit.(*ssa.Parameter); ok {
+			// the function records its own parameter before binding it (`propagateFact(unit)`)
+			for _, fs := range storesToField(fn, "solver.Solver", "facts") {
+				if c, isC := fs.Val.(*ssa.Call); isC && appendedElem(c) == ssa.Value(p) && instrDominates(fs, at) {
+					return "ok", "the function records the literal it is handed before binding it"
+				}
+			}
 			pi := paramIndex(fn, p)
 			callers := w.Callers[fn]
 			if len(callers) == 0 {
